@@ -254,6 +254,17 @@ def sequences(level):
     for a in ([2 ** 53 + 1, 1.00390625], [1.00390625, 2 ** 53 + 1], [2 ** 53 + 1, S], [float(2 ** 60), 3], [2 ** 62 + 1, 2.5]):
         for b in ("product", "identity", "first_twice"):
             seqs.append([(b, a)])
+    # sizes: many leaves, deep nesting, many arguments, many calls in one run
+    wide = list(range(1, 41))
+    deep = [1, [2, [3, [4, [5, [6, (7, {"k": [8, 2.5]})]]]]]]
+    for b in ("identity", "product", "mixed", "same_object"):
+        seqs.append([(b, [wide])])
+        seqs.append([(b, [deep])])
+        seqs.append([(b, [{("k%02d" % i): i for i in range(33)}])])
+        seqs.append([(b, list(range(3, 20)))])                      # 17 positional arguments
+        seqs.append([(b, [[S] * 33 + [4]])])
+    seqs.append([("product", [3 + (i % 5), S]) for i in range(40)])   # 40 calls in one run
+    seqs.append([("identity", [[i, 2.5]]) for i in range(70)])
     sub = calls[:: (2 if level >= 1 else 5)]
     seqs += [[a, b] for a in sub for b in sub[:: 3]]
     sub3 = sub[:: 3]
